@@ -189,6 +189,32 @@ Example c04_shared_buffer_would_mix :
   /\ recv (run_sched sess bk sched) = [build_body (S_ "alice@d.test") (S_ "wrong-pw"); good].
 Proof. vm_compute. repeat split; reflexivity. Qed.
 
+(** contrast (not raven's code): a cache of verifications in progress keyed by
+    the first 32 octets of the user name answers OK for credentials the backend
+    never saw -- the same long address with a wrong password, or another
+    person's address sharing the first 32 octets -- while the model's session
+    finishes with the backend's answer to ITS OWN body *)
+Example c04_prefix_keyed_verification_cache_would_leak :
+  let key := fun u : str => firstn 32 u in
+  let d := S_ "example.org" in
+  let alice := S_ "firstname.lastname.of.alice.a@research.example.org" in
+  let alicf := S_ "firstname.lastname.of.alice.a@reserve.example.net" in
+  let good := build_body alice (S_ "right-pw") in
+  let bk := fun body => if str_eqb body good then Status 200 else Status 401 in
+  (* the verdict a request inherits when a verification with an equal key is in flight *)
+  let coalesced := fun (inflight : str * bool) (u p : str) =>
+        if str_eqb (fst inflight) (key u) then snd inflight
+        else accepted (bk (build_body (address_of d u) p)) in
+  let inflight := (key alice, accepted (bk good)) in
+  Nat.leb 32 (length alice) = true
+  /\ coalesced inflight alice (S_ "wrong-pw") = true
+  /\ coalesced inflight alicf (S_ "whatever") = true
+  /\ accepted (bk (build_body (address_of d alice) (S_ "wrong-pw"))) = false
+  /\ accepted (bk (build_body (address_of d alicf) (S_ "whatever"))) = false
+  /\ answer (finish (mk_csession d alice (S_ "wrong-pw") ensure_ok true)
+              (bk (build_body (address_of d alice) (S_ "wrong-pw")))) = R_NO.
+Proof. vm_compute. repeat split; reflexivity. Qed.
+
 (** ---- entry points: from the bytes on the wire ---- *)
 
 (** The command-line tokenizer (utils.SplitCommandLine / ParseQuotedString /
